@@ -237,17 +237,18 @@ theorem grid_addition_consistent {w : World} {g1 g2 : Grid}
 
 /-- **Embedding.**  Host = the current grid, `sub` a second consistent grid in the same heap (no
     common object; a host rock type whose name occurs in `sub` is unused, else F2), `c` a new
-    connection object from a host block to a block of `sub`.  `embed` does not raise; whether it returns a grid or `None`
+    connection object whose two blocks carry the names of a host block and of a block of `sub`
+    (the grids' own objects, or equal-named standalone ones: `embed` re-points the connection by name).  `embed` does not raise; whether it returns a grid or `None`
     (sub-grid too big or a common block name: nothing changes), the grid is consistent. -/
-theorem embed_consistent {w : World} {sub : Grid} {c : Nat}
+theorem embed_consistent {w : World} {sub : Grid} {c x0 x1 : Nat}
     (h1 : Grid.Inv w) (h2 : Grid.Inv (w.withGrid sub))
     (oR : ∀ x ∈ w.rocktypelist, x ∉ sub.rocktypelist) (oB : ∀ x ∈ w.blocklist, x ∉ sub.blocklist)
     (oC : ∀ x ∈ w.connectionlist, x ∉ sub.connectionlist)
     (nR : ∀ x ∈ w.rocktypelist, ∀ y ∈ sub.rocktypelist, w.rname x = w.rname y → ∀ b ∈ w.blocklist, (w.bk b).rock ≠ x)
     (hc : c < w.cons.length) (hc1 : c ∉ w.connectionlist) (hc2 : c ∉ sub.connectionlist)
-    (hhost : (w.cn c).b0 ∈ w.blocklist) (hsb : (w.cn c).b1 ∈ sub.blocklist) :
+    (hhost : dget w.block (w.bname (w.cn c).b0) = some x0) (hsb : dget sub.block (w.bname (w.cn c).b1) = some x1) :
     ∃ w' fl, embed w sub c = .ok (w', fl) ∧ Consistent w' ∧ (fl = false → w' = w) := by
-  obtain ⟨w', fl, e, hI, _, hf⟩ := Proofs.Grid.embed_inv h1 h2 oR oB oC nR hc hc1 hc2 hhost hsb
+  obtain ⟨w', fl, e, hI, _, hf⟩ := Proofs.Grid.embed_inv' h1 h2 oR oB oC nR hc hc1 hc2 hhost hsb
   exact ⟨w', fl, e, consistent_of_inv hI, hf⟩
 
 /-! ### the grid refines "finite map name ↦ block, with an order" -/
